@@ -22,15 +22,27 @@ import (
 // A schedule is a sequence over {p = answer P (the token then reaches H), d1, d2 = deliver sig1 / sig2,
 // a = answer H}. Modes: wait (quiescence before every action), nowait (the actions after p back-to-back),
 // nowaitall (p included: the event races the activation), and four enforced schedules that park one goroutine
-// of the real engine at a verifhook point (hold-forward, hold-listener, hold-catch, hold-activation).
+// of the real engine at a verifhook point (hold-forward, hold-listener, hold-catch, hold-activation, hold-tracer).
 func init() {
 	caseFamilies["c10"] = &caseFamily{
-		Shard: 1, Par: 14,
+		Shard: 1, Par: c10par(),
 		Count: func(tier string) int { return len(c10cases(tier)) },
 		Run: func(out *rec.Out, idx int, rng *rec.Rng, tier string, stats map[string]int) {
 			c10run(out, c10cases(tier)[idx], stats)
 		},
 	}
+}
+
+// c10par: child processes in flight; follows the CPUs this process may use (taskset / cgroup affinity)
+func c10par() int {
+	n := runtime.NumCPU() - 2
+	if n > 14 {
+		n = 14
+	}
+	if n < 2 {
+		n = 2
+	}
+	return n
 }
 
 type c10case struct {
@@ -115,6 +127,12 @@ func c10cases(tier string) []c10case {
 			cs = append(cs, c10case{host, kinds, []string{"p", "d1", "a"}, "hold-listener"})
 			cs = append(cs, c10case{host, kinds, []string{"p", "d1", "a"}, "hold-catch"})
 			cs = append(cs, c10case{host, kinds, []string{"p", "d1", "a"}, "hold-activation"})
+			if host == "task" {
+				cs = append(cs, c10case{host, kinds, []string{"p", "a", "d1"}, "hold-tracer"})
+				if nb == 2 {
+					cs = append(cs, c10case{host, kinds, []string{"p", "a", "d2", "d1"}, "hold-tracer"})
+				}
+			}
 			if nb == 2 {
 				cs = append(cs, c10case{host, kinds, []string{"p", "d2", "d1", "a"}, "hold-activation"})
 				cs = append(cs, c10case{host, kinds, []string{"p", "a", "d1", "d2"}, "hold-forward"})
@@ -231,12 +249,12 @@ func c10run(out *rec.Out, c c10case, stats map[string]int) {
 		return true
 	}
 	deliver := func(a string) {
-		in.Deliver("signal", "sig"+a[1:], 2*timeSecond)
+		in.Deliver("signal", "sig"+a[1:], 6*timeSecond)
 	}
 	answer := func(node string, poll bool) bool {
 		var q *eng.Req
 		if poll {
-			q = waitReq(node, 2*timeSecond)
+			q = waitReq(node, 4*timeSecond)
 		} else {
 			q = find(node)
 		}
@@ -268,7 +286,7 @@ func c10run(out *rec.Out, c c10case, stats map[string]int) {
 			case "p":
 				ok = answer("P", false)
 			case "a":
-				ok = answer(hostTask, false)
+				answer(hostTask, false)
 			default:
 				deliver(a)
 			}
@@ -291,7 +309,7 @@ func c10run(out *rec.Out, c c10case, stats map[string]int) {
 					ok = answer("P", false)
 				}
 			case "a":
-				ok = answer(hostTask, true)
+				answer(hostTask, true)
 			default:
 				deliver(a)
 			}
@@ -307,8 +325,8 @@ func c10run(out *rec.Out, c c10case, stats map[string]int) {
 		answer("P", false)
 		quiesce()
 		arr := hold("tasktrace.process.forwarding")
-		ok = answer(hostTask, false)
-		if !sched.WaitArrived(arr, 2*timeSecond) {
+		answer(hostTask, false)
+		if !sched.WaitArrived(arr, 10*timeSecond) {
 			in.Note("obs notarrived tasktrace.process.forwarding")
 		}
 		for _, a := range c.acts[2:] {
@@ -327,10 +345,10 @@ func c10run(out *rec.Out, c c10case, stats map[string]int) {
 		for _, a := range c.acts[1:] {
 			quiesce()
 			if a == "a" {
-				ok = answer(hostTask, false)
+				answer(hostTask, false)
 			} else {
 				deliver(a)
-				if !sched.WaitArrived(arr, 2*timeSecond) {
+				if !sched.WaitArrived(arr, 10*timeSecond) {
 					in.Note("obs notarrived flow.action")
 				}
 			}
@@ -344,7 +362,7 @@ func c10run(out *rec.Out, c c10case, stats map[string]int) {
 		quiesce()
 		arr := hold("harness.before_next_action")
 		answer("P", false)
-		if !sched.WaitArrived(arr, 2*timeSecond) {
+		if !sched.WaitArrived(arr, 10*timeSecond) {
 			in.Note("obs notarrived harness.before_next_action")
 		}
 		for _, a := range c.acts[1:] {
@@ -357,9 +375,30 @@ func c10run(out *rec.Out, c c10case, stats map[string]int) {
 		quiesce()
 		release("harness.before_next_action")
 		quiesce()
-		if find(hostTask) != nil {
-			ok = answer(hostTask, false)
+		// (when the token was stranded there is no request: recorded as `obs norequest`, the answer is skipped)
+		answer(hostTask, false)
+	case "hold-tracer":
+		// the tracer goroutine is parked (an unrelated signal makes the armed listeners send one trace, which it
+		// takes and then parks on): every trace send of the engine blocks from now on. The host is answered (its
+		// answer reaches the harness's relay, which has to announce the end of the boundary phase), THEN the
+		// events are delivered, then the tracer is released. Only task hosts: a sub-process cannot finish without
+		// sending traces.
+		quiesce()
+		answer("P", false)
+		quiesce()
+		arr := hold("tracer.broadcast")
+		in.Deliver("signal", "sigX", 6*timeSecond)
+		if !sched.WaitArrived(arr, 10*timeSecond) {
+			in.Note("obs notarrived tracer.broadcast")
 		}
+		quiesce()
+		answer(hostTask, false)
+		for _, a := range c.acts[2:] {
+			quiesce()
+			deliver(a)
+		}
+		quiesce()
+		release("tracer.broadcast")
 	case "hold-catch":
 		// the event is forwarded to the catch event (the harness was active) but the catch event's run loop is
 		// parked before it looks at it; the host is answered and completes meanwhile
@@ -368,11 +407,11 @@ func c10run(out *rec.Out, c c10case, stats map[string]int) {
 		quiesce()
 		arr := hold("catch.process_event")
 		deliver("d1")
-		if !sched.WaitArrived(arr, 2*timeSecond) {
+		if !sched.WaitArrived(arr, 10*timeSecond) {
 			in.Note("obs notarrived catch.process_event")
 		}
 		quiesce()
-		ok = answer(hostTask, false)
+		answer(hostTask, false)
 		quiesce()
 		release("catch.process_event")
 	}
